@@ -46,7 +46,10 @@ def run(job):
                   # other than +-1 (their scales must be merged correctly)
                   ((Decimal(10), 1), (u3[1], 1), (r3, 2), (u3[1], -2)),
                   ((u3[1], 3), (r3, -2), (Fraction(1, 2), 1)),
-                  ((r3, 2), (u3[1], 2), (r3, -3))):
+                  ((r3, 2), (u3[1], 2), (r3, -3)),
+                  # plain int factors only (the scale must not stay an int:
+                  # int / int would be a float)
+                  ((1000, 1), (r3, 1)), ((3, 1), (r3, 1)), ((r3, 1), (7, 1))):
         u3.append(c3.new_unit(W.uid("tq"), define_as=Term(items)))
         # the scale as the *given* items define it (the stored definition is
         # already the library's reduction of them)
